@@ -23,4 +23,20 @@ theorem C04_gen_stdlibLoadsPlain : Generated.stdlibLoadsPlain = some true := by 
 /-- `jsonrpclib.loads` hands the body to the parser as it is (no strip / slice in front of it). -/
 theorem C04_gen_loadsParsesWholeBody : Generated.loadsParsesWholeBody = some true := by decide
 
+/- ===== the KIND of exception the handlers around a method call catch (tools/extractors/server_base.py) ===== -/
+
+/-- `_dispatch`: the handler chain around `func(*params)` / `func(**params)` ends in a catch-all (bare `except:` or
+    `except BaseException`) that always returns.  The model's `invoke` has one arm for `CallOutcome.raisedBase` —
+    `SystemExit` from a handler calling `sys.exit()`, `KeyboardInterrupt`, `GeneratorExit`, … — and it is the arm of
+    any other method exception (`C04_base_exception_contained`): this fact is what that arm stands on. -/
+theorem C04_gen_dispatchCallCatchAll : Generated.dispatchCallCatchAll = some true := by decide
+
+/-- `_marshaled_single_dispatch`: the synchronous call of a dispatch function (the custom function, `self._dispatch` and
+    through it the instance's own `_dispatch`) is guarded by a handler that catches every `BaseException` and always
+    returns (fix 43f3faa).  The model's `singleDispatch` has one branch for whatever `runDispatcher` lets out — an error
+    of any class, `CallOutcome.raisedBase` of a dispatch function included (`C04_base_exception_dispatch_fn`): this
+    fact is what that branch stands on. -/
+theorem C04_gen_syncCallCatchAll : Generated.syncCallCatchAll = some true := by decide
+theorem C04_gen_syncCallHandlerClasses : Generated.syncCallHandlerClasses = some ["BaseException"] := by decide
+
 end JRV.Props
